@@ -21,11 +21,11 @@ fn replay_l4(ctx: &Ctx, v: &Value, prop: l4::Prop) -> i32 {
     ctx.replay::<l4::Case>(v, |c| l4::run_case(c, prop))
 }
 
-const BASE: l4::gen::P = l4::gen::P { pause: 0, inject: 0, panic: 0, stop: 0, busy: 0, uds: false, max_limit: 3, taskpanic: 1, abort: 0, gate: 0, churn: 0 };
+const BASE: l4::gen::P = l4::gen::P { pause: 0, inject: 0, panic: 0, stop: 0, busy: 0, uds: true, max_limit: 3, taskpanic: 1, abort: 0, gate: 0, churn: 0 };
 
 pub fn run_c01(ctx: &Ctx) {
     l4_part(ctx, "l4", l4::Prop::C01, l4::gen::P { pause: 1, uds: true, abort: 2, gate: 2, ..BASE }, ctx.tier.scale(300, 4));
-    l4_part(ctx, "l4-faults", l4::Prop::C01, l4::gen::P { panic: 4, stop: 1, max_limit: 2, taskpanic: 0, gate: 3, ..BASE }, ctx.tier.scale(160, 4));
+    l4_part(ctx, "l4-faults", l4::Prop::C01, l4::gen::P { panic: 4, stop: 1, max_limit: 2, taskpanic: 0, gate: 3, uds: false, ..BASE }, ctx.tier.scale(160, 4));
     ctx.inconclusive(WHY);
 }
 pub fn replay_c01(ctx: &Ctx, v: &Value) -> i32 {
@@ -34,6 +34,7 @@ pub fn replay_c01(ctx: &Ctx, v: &Value) -> i32 {
 
 pub fn run_c02(ctx: &Ctx) {
     l4_part(ctx, "l4", l4::Prop::C02, l4::gen::P { gate: 1, ..BASE }, ctx.tier.scale(400, 4));
+    ctx.run_random(Part::new("l4-long-idle", RULE_L4, ctx.tier.scale(4, 3)).shards(8).shrink_iters(1), l4::gen::long_idle_strategy, move |c| l4::run_case(c, l4::Prop::C02));
     ctx.inconclusive(WHY);
 }
 pub fn replay_c02(ctx: &Ctx, v: &Value) -> i32 {
@@ -76,17 +77,18 @@ pub fn replay_c06(ctx: &Ctx, v: &Value) -> i32 {
 }
 
 pub fn run_c07(ctx: &Ctx) {
-    // C07 is decided on the stepped worker only
+    // C07 is decided on the stepped worker; end to end only the order of queued connections is visible
+    ctx.run_random(Part::new("l4-order", RULE_L4, ctx.tier.scale(64, 4)).shards(8).shrink_iters(6), l4::gen::order_strategy, move |c| l4::run_case(c, l4::Prop::C07));
     ctx.inconclusive(WHY);
 }
-pub fn replay_c07(ctx: &Ctx, _v: &Value) -> i32 {
-    ctx.inconclusive(WHY);
-    2
+pub fn replay_c07(ctx: &Ctx, v: &Value) -> i32 {
+    replay_l4(ctx, v, l4::Prop::C07)
 }
 
 pub fn run_c08(ctx: &Ctx) {
-    l4_part(ctx, "l4", l4::Prop::C08, l4::gen::P { panic: 4, stop: 1, max_limit: 2, gate: 2, ..BASE }, ctx.tier.scale(300, 4));
+    l4_part(ctx, "l4", l4::Prop::C08, l4::gen::P { panic: 4, stop: 1, max_limit: 2, gate: 2, uds: false, ..BASE }, ctx.tier.scale(300, 4));
     ctx.run_random(Part::new("l4-all-workers-fault", RULE_L4, ctx.tier.scale(24, 5)).shards(8).shrink_iters(6), l4::gen::panic_all_strategy, move |c| l4::run_case(c, l4::Prop::C08));
+    ctx.run_random(Part::new("l4-restart-refused", RULE_L4, ctx.tier.scale(24, 5)).shards(8).shrink_iters(6), l4::gen::restart_refused_strategy, move |c| l4::run_case(c, l4::Prop::C08));
     ctx.inconclusive(WHY);
 }
 pub fn replay_c08(ctx: &Ctx, v: &Value) -> i32 {
